@@ -196,6 +196,7 @@ func (muxerSlice) Gen(r *rand.Rand, _ int, tier string) ([]string, []string) {
 	pay := 0
 	snapEvery := 1 + r.Intn(6)
 	sawReq := false
+	sawRel := false
 	for w := 0; w < nWrites; w++ {
 		// next track = the one whose next unit is earliest in media time
 		best := 0
@@ -335,10 +336,17 @@ func (muxerSlice) Gen(r *rand.Rand, _ int, tier string) ([]string, []string) {
 		if variant == "ll" && r.Intn(15) == 0 {
 			ops = append(ops, fmt.Sprintf("gethint s=%d", r.Intn(len(tracks))))
 		}
+		if variant == "ll" && ((w > nWrites/3 && r.Intn(4) == 0) || r.Intn(16) == 0) { // slice muxreq (C06): requests dense around the live edge, mostly once content exists
+			sawRel = true
+			ops = append(ops, genReqRel(r, len(tracks)))
+		}
 	}
 	ops = append(ops, "snap")
 	if sawReq {
 		tags = append(tags, "ll-requests")
+	}
+	if sawRel {
+		tags = append(tags, "ll-requests-rel")
 	}
 	return ops, tags
 }
